@@ -315,8 +315,10 @@ counterexample that did not reproduce) - never a verdict.
   registration and the players' RTSP connections (two genuine defects found that way).
 * Freshness of the HLS window is a verdict in disk mode and at quiescence over HTTP only; in memory mode it is
   covered by model drift.
-* C10-1 (a lock narrowed around the segment lookup) is caught by real HTTP concurrency, i.e. probabilistically; a
-  gate inside `Playlist.Segment` would make it deterministic and was not added.
+* C10-1 (a lock narrowed around the segment lookup) is now forced: gate `hls.seg.found` sits between the window lookup
+  and `get()`; the open-race leg of C10 attempts five rollovers from inside the gate and accepts only the two serial
+  orders of Hls.tla's atomic `Open` (same bytes, or not found after a completed rollover). On the unchanged tree the
+  rollover blocks on the read lock every time (`rollover_blocked_by_reader` in the evidence).
 * Pool aliasing between goroutines is provoked, not forced: the hook `ws.write` widens the window between encoding and
   writing, but which goroutine receives a buffer that was given back is up to sync.Pool (few Ps and several players make
   it likely; the three seeded changes of that kind were caught in every run tried).
